@@ -52,7 +52,9 @@ fn run_c35(rep: &mut Report) {
         callback got exactly the sent values (compared as a multiset per receiver), nothing at non-addressed members, \
         tag == sender id; MemberId <-> TaglessMemberId round trip over raw ids; sinktools::demux_map routes by key, also with \
         scripted back-pressuring member sinks (Pending at every subset of <= 2 of each sink's first 3 poll_ready / 3 poll_flush \
-        calls): after send/flush completes every payload is in the addressed member's inbox, in order, nowhere else".into();
+        calls): after send/flush completes every payload is in the addressed member's inbox, in order, nowhere else; \
+        String / Vec<u16> flows additionally with encodings of 4095/4096/4097/~9000 bytes mixed with small messages \
+        ([large, small], [small, large, small], other member / other sender / other-type flow next on the same thread)".into();
     rep.assume("values outside the boundary alphabet are not covered (bounded input enumeration)");
     rep.assume("the harness plays the transport (delivers by the emitted addressee id, tags with the sender id)");
     rep.assume("embedded deployment path (compile/embedded.rs); the deployed runtimes' socket layer is not exercised");
@@ -75,6 +77,8 @@ fn run_c35(rep: &mut Report) {
         st
     });
     rep.section("network_flows", st);
+    rep.bound("large_frame_encoded_sizes", vf_explore::json!(c35::NetCtx::new_large(thorough).large_sizes));
+    rep.section("large_frames_same_thread", c35::large_frames(thorough, NETS, None));
     for f in GEN_FAILURES.iter().filter(|f| f.family == "net") {
         let mut st = Stats::new();
         st.cap(format!("flow {} was not generated (reported by C41): not checked", f.id));
@@ -92,6 +96,14 @@ fn replay_c35(case: &Value) -> bool {
             return c35::replay_demux_scripted(&case["case"]);
         }
         _ => {
+            if case["case"]["large"].as_bool() == Some(true) {
+                let st = c35::large_frames(true, NETS, Some((flow.to_string(), case["case"].clone())));
+                println!("replayed {} large-frame case(s) of {flow}: {} violation(s)", st.evaluations, st.violations_total);
+                for v in &st.violations {
+                    println!("  {}", v.what);
+                }
+                return st.violations_total > 0;
+            }
             let n = NETS.iter().find(|n| n.id == flow).expect("unknown flow");
             let mut ctx = c35::NetCtx::new(true);
             ctx.only = Some(case["case"].clone());
